@@ -210,6 +210,8 @@ def monitors(scenario, trace):
                 probs["C03"].append("step %d: delivery on t%d performs `%s` — a lock / allocation / release / wait / system call inside the signal handler" % (i, tid, body))
             if body.startswith("load data.data"):
                 d["at_load"] = spec.tags(d["sig"])
+            if body.startswith("fetch_sub data.lock"):
+                d["unpinned"] = True          # the read guard on `data` is gone: the snapshot may be released now
             if body.startswith("run "):
                 tg = int(body.split()[1])
                 d["runs"].append(tg)
@@ -241,7 +243,7 @@ def monitors(scenario, trace):
                     probs["C01"].append("step %d: action %d released inside a signal handler (t%d)" % (i, tg, tid))
                 # nobody may still be inside a read section on a snapshot that holds it
                 for t2, d in deliv.items():
-                    if d.get("at_load") is not None and tg in d["at_load"] and not d.get("done"):
+                    if d.get("at_load") is not None and tg in d["at_load"] and not d.get("done") and not d.get("unpinned"):
                         probs["C01"].append("step %d: action %d released by t%d while the delivery on t%d still has a snapshot containing it pinned" % (i, tg, tid, t2))
         if body.startswith("ret "):
             call = cur_call.get(tid, "")
